@@ -40,9 +40,11 @@ RECURSIVE ProdUpTo(_)
 ProdUpTo(p) == IF p = 0 THEN 1 ELSE Radices[p] * ProdUpTo(p - 1)
 UniCount == ProdUpTo(Len(Radices))
 Digit(k, p) == ((k % UniCount) \div ProdUpTo(p - 1)) % Radices[p]
-UniAt(k) == [member |-> MemberOpts[Digit(k, 1) + 1], act |-> ActOpts[Digit(k, 2) + 1], gen |-> MaxGen,
+NoHttp(d) == [member |-> d.member, act |-> d.act, gen |-> d.gen, ids |-> d.ids, trg |-> d.trg,
+              http |-> FALSE, ro |-> "absent", wd |-> WriteEnabledByDefault]
+UniAt(k) == NoHttp([member |-> MemberOpts[Digit(k, 1) + 1], act |-> ActOpts[Digit(k, 2) + 1], gen |-> MaxGen,
              ids |-> [i \in 1..NI |-> IF i <= UseNI THEN IdOpts[Digit(k, 2 + i) + 1] ELSE NoId],
-             trg |-> [j \in 1..NT |-> IF j <= UseNT THEN TrOpts[Digit(k, 2 + UseNI + j) + 1] ELSE NoTrg]]
+             trg |-> [j \in 1..NT |-> IF j <= UseNT THEN TrOpts[Digit(k, 2 + UseNI + j) + 1] ELSE NoTrg]])
 
 (* hand-written scenarios (3 identities, 2 triggers; truncated to UseNI / UseNT):
    1  ts order opposite to byte order inside set 1, second set active later; one log one block after
@@ -76,7 +78,11 @@ Designed == <<
    2  the same, but this keyper is not in set 2
    3  four identities of ONE set with equal timestamps (the query order among them is unspecified:
       the driver permutes it) - sorting of 3 and 4 identities from every arrival order
-   4  four identities of one set whose timestamp order is (largest, smallest, third, second) *)
+   4  four identities of one set whose timestamp order is (largest, smallest, third, second)
+   5  HTTP API enabled by a config file that does not mention HTTPReadOnly: POST /v1/decryptionTrigger
+      for identities that are due / not due / of a later set must be refused
+   6  the same with HTTPReadOnly = false written by the operator (the request reaches the key share
+      handler; exercises the code-shaped manual path, exempt from C02) *)
 Targeted == <<
   [member |-> <<TRUE, TRUE>>, act |-> <<1, 2>>, gen |-> <<1, 1>>,
    ids |-> <<NoId, NoId, NoId, NoId>>,
@@ -89,14 +95,22 @@ Targeted == <<
    trg |-> <<NoTrg, NoTrg>>],
   [member |-> <<TRUE, TRUE>>, act |-> <<1, 2>>, gen |-> <<1, 0>>,
    ids |-> <<[set |-> 1, ts |-> 1], [set |-> 1, ts |-> 3], [set |-> 1, ts |-> 2], [set |-> 1, ts |-> 0]>>,
+   trg |-> <<NoTrg, NoTrg>>],
+  [member |-> <<TRUE, TRUE>>, act |-> <<1, 2>>, gen |-> <<1, 1>>, http |-> TRUE, ro |-> "absent",
+   ids |-> <<[set |-> 1, ts |-> 3], [set |-> 2, ts |-> 1], NoId, NoId>>,
+   trg |-> <<NoTrg, NoTrg>>],
+  [member |-> <<TRUE, TRUE>>, act |-> <<1, 2>>, gen |-> <<1, 1>>, http |-> TRUE, ro |-> "false",
+   ids |-> <<[set |-> 1, ts |-> 3], [set |-> 2, ts |-> 1], NoId, NoId>>,
    trg |-> <<NoTrg, NoTrg>>] >>
 
 (* designed universes 1..5 use the first UseNI / UseNT of their slots and MaxGen; 6.. are Targeted *)
-Cut(d) == [member |-> d.member, act |-> d.act, gen |-> MaxGen,
+Cut(d) == NoHttp([member |-> d.member, act |-> d.act, gen |-> MaxGen,
            ids |-> [i \in 1..NI |-> IF i <= UseNI /\ i <= Len(d.ids) THEN d.ids[i] ELSE NoId],
-           trg |-> [j \in 1..NT |-> IF j <= UseNT /\ j <= Len(d.trg) THEN d.trg[j] ELSE NoTrg]]
-Fit(d) == [d EXCEPT !.ids = [i \in 1..NI |-> IF i <= Len(d.ids) THEN d.ids[i] ELSE NoId],
-                    !.trg = [j \in 1..NT |-> IF j <= Len(d.trg) THEN d.trg[j] ELSE NoTrg]]
+           trg |-> [j \in 1..NT |-> IF j <= UseNT /\ j <= Len(d.trg) THEN d.trg[j] ELSE NoTrg]])
+Fit(d) == LET e == NoHttp([member |-> d.member, act |-> d.act, gen |-> d.gen,
+                           ids |-> [i \in 1..NI |-> IF i <= Len(d.ids) THEN d.ids[i] ELSE NoId],
+                           trg |-> [j \in 1..NT |-> IF j <= Len(d.trg) THEN d.trg[j] ELSE NoTrg]])
+          IN IF "http" \in DOMAIN d THEN [e EXCEPT !.http = d.http, !.ro = d.ro] ELSE e
 DesignedUnis == [k \in DOMAIN DesignedIdx |->
                    IF DesignedIdx[k] <= Len(Designed) THEN Cut(Designed[DesignedIdx[k]])
                    ELSE Fit(Targeted[DesignedIdx[k] - Len(Designed)])]
@@ -127,7 +141,8 @@ Alphabet ==
     SetToSeq({Op("eon", s, 0, <<>>) : s \in Sets}) \o
     SetToSeq({Op("dkg", s, b, <<>>) : s \in Sets, b \in {0, 1}}) \o
     SetToSeq({Op("release", 0, 0, r) : r \in ReleaseSets}) \o
-    <<Op("restart", 0, 0, <<>>)>>
+    <<Op("restart", 0, 0, <<>>)>> \o
+    SetToSeq({Op("manual", x, 0, <<>>) : x \in 1..(NI + NT)})
 
 ASSUME PrintT(<<"ALPHABET", ToJson(Alphabet)>>)
 ASSUME PrintT(<<"UNIS", ToJson(Universes)>>)
@@ -154,7 +169,8 @@ Step(i) ==
        THEN IF out' # <<>>
             THEN IF (Sum(hist') % EMod) = EPhase THEN PrintT(<<"E", hist'>>) ELSE TRUE
             ELSE IF (Sum(hist') % NMod) = NPhase THEN PrintT(<<"N", hist'>>) ELSE TRUE
-       ELSE TRUE
+       ELSE IF Emit /\ op.k = "manual"     \* a refused request changes nothing: it would never be in the tree
+            THEN PrintT(<<"M", hist'>>) ELSE TRUE
 
 Next == \E i \in DOMAIN Alphabet : Step(i)
 Spec == Init /\ [][Next]_vars
